@@ -280,3 +280,23 @@ func zzF64bits(f float64) uint64 { return math.Float64bits(f) }
 
 // zzExpectSilent: from now on any write to fd 1/2 by the library is a finding (native: observed by the replay driver).
 func zzExpectSilent() {}
+
+// zzF32s: n arbitrary float32 values (bit patterns name_i); NaN patterns are excluded (payload propagation is not part
+// of the claim).
+func zzF32s(name string, n int) []float32 {
+	f := make([]float32, n)
+	for i := range f {
+		f[i] = math.Float32frombits(uint32(zzModel[fmt.Sprintf("%s_%d", name, i)]))
+		if f[i] != f[i] {
+			f[i] = 1
+		}
+	}
+	return f
+}
+
+func zzDump(name string, f float32) {}
+
+func zzDiff(a, b float32) {}
+
+// zzIgnoreZeroSign: from now on the engine identifies -0.0 and +0.0 in float additions (native: no-op).
+func zzIgnoreZeroSign() {}
